@@ -41,6 +41,17 @@ def apply_op(root, op):
         os.symlink(op['to'], p)
     elif k == 'mkfifo':
         os.mkfifo(p)
+    elif k == 'mksock':
+        import socket
+        old = os.getcwd()
+        sk = socket.socket(socket.AF_UNIX)
+        try:
+            # (sun_path is short: bind by the bare name from inside the directory)
+            os.chdir(os.path.dirname(p))
+            sk.bind(os.path.basename(p))
+        finally:
+            os.chdir(old)
+            sk.close()
     elif k == 'utime':
         os.utime(p, (op['mt'], op['mt']))
     elif k == 'chmod':
@@ -217,7 +228,10 @@ def mutate(rng, root, layout, info, klass):
             return None
         rec['path'] = f
         if klass == 'stray-special':
-            ops.append({'op': 'mkfifo', 'p': f})
+            # a FIFO, or a UNIX socket (which cannot even be opened)
+            ops.append({'op': 'mksock' if rng.random() < 0.5
+                        and len(os.path.basename(f).encode('utf8')) < 90
+                        else 'mkfifo', 'p': f})
         elif klass == 'stray-manifest-name':
             sfx = mtext.suffix_of(f)
             # (a plain file named Manifest holds text: non-UTF-8 bytes there are
